@@ -142,6 +142,41 @@ def rule_config(h, kind, order):
         h.valid('degree=%d' % k, h.And(r <= h.frac(TOL), r >= -h.frac(TOL)), kinds=('default',))
 
 
+def crosshair_config(h):
+    """Order dispatch with a SYMBOLIC order (CrossHair + z3): either NotImplementedError or a rule of at least the requested degree."""
+    import os
+    import re
+    import subprocess
+    t_ = h.sym('t', ())
+    h.zero('trivial', t_ - t_)
+    here = os.path.dirname(os.path.dirname(os.path.abspath(__file__)))
+    if h.sym_mode:
+        env = dict(os.environ, PYTHONPATH=harness.REPO + os.pathsep + here)
+        try:
+            p = subprocess.run([sys.executable, '-m', 'crosshair', 'check', '--report_all', '--per_condition_timeout', '150',
+                                os.path.join(here, 'checks', 'crosshair', 'c08_orders.py')], capture_output=True, text=True, env=env, cwd=here, timeout=500)
+            out = p.stdout + p.stderr
+        except Exception as e:       # crosshair not installed / timeout: inconclusive, not an alarm
+            h.note('CrossHair run failed: %s' % e)
+            return
+        h.sample(dict(crosshair_output=out.strip().splitlines()[-4:]))
+        confirmed = len(re.findall('Confirmed over all paths', out))
+        refuted = [l for l in out.splitlines() if 'error:' in l and 'false when calling' in l]
+        h.stub('CrossHair 0.0.110 explores get_quadrature_tri/tet with a symbolic order; the degree of the concrete table on each path is computed untraced')
+        if refuted:
+            h.concrete('order dispatch: raises or returns a rule of at least the requested degree', False, refuted[0][-200:])
+        elif confirmed == 2:
+            h.concrete('order dispatch: raises or returns a rule of at least the requested degree', True, 'Confirmed over all paths (tri: -4..40, tet: -4..24)')
+        else:
+            h.note('CrossHair: not confirmed within the budget (inconclusive)')
+    else:
+        from checks.crosshair.c08_orders import tri_dispatch, tet_dispatch
+        bad = [('tri', n) for n in range(-4, 41) if not (tri_dispatch(n) == -1 or tri_dispatch(n) >= n)] + \
+              [('tet', n) for n in range(-4, 25) if not (tet_dispatch(n) == -1 or tet_dispatch(n) >= n)]
+        if bad:
+            h.failed_keys.append(('order dispatch: raises or returns a rule of at least the requested degree', float(len(bad))))
+
+
 def build_configs(tier, seed):
     quick = tier == 'quick'
     rng = dict(
@@ -158,6 +193,7 @@ def build_configs(tier, seed):
         for n in r:
             cfgs.append(dict(name='%s/order=%d' % (kind, n), fn=rule_config, kw=dict(kind=kind, order=n),
                              opts=dict(snap=False, no_proxy=True)))
+    cfgs.append(dict(name='crosshair/order-dispatch', fn=crosshair_config, kw={}, opts=dict(snap=False, no_proxy=True, timeout=600)))
     return cfgs
 
 
